@@ -553,6 +553,12 @@ func (g *Gen) GenTx(s Snap, height int64) Tx {
 		if r.P(20) {
 			signer = []int{-2, r.N(NOPS)}[r.N(2)]
 		}
+		if signer == -1 && t >= 0 && t < NOPS && s.Ops[t].Pending && g.Cfg.Mode != "calm" && r.P(40) {
+			// the refused applicant applies again, with another consensus key
+			m := g.msgCreate(t, s)
+			m.Args[1] = itoa((t + 1 + r.N(NOPS-1)) % NOPS)
+			g.queued = append(g.queued, Tx{Signer: t, Msgs: []Msg{m}})
+		}
 		return Tx{Signer: signer, Msgs: []Msg{{Kind: "RMPENDING", Args: []string{itoa(t)}}}}
 	case 3: // CREATE
 		fresh := g.classOps(s, func(o OpInfo) bool { return !o.Exists && !o.Pending })
